@@ -18,11 +18,27 @@ class Result:
         return {'id': self.id, 'verdict': self.verdict, 'backend': self.backend, 'secs': round(self.secs, 3), 'reason': self.reason}
 
 
-def _solve(obl, timeout_ms, seed, on_model):
+def has_quantifier(t, _cache={}):
+    stack, seen = [t], set()
+    while stack:
+        x = stack.pop()
+        i = x.get_id()
+        if i in seen:
+            continue
+        seen.add(i)
+        if z3.is_quantifier(x):
+            return True
+        stack.extend(x.children())
+    return False
+
+
+def _solve(obl, timeout_ms, seed, on_model, ground_only=False):
     s = z3.Solver()
     s.set('timeout', timeout_ms)
     s.set('random_seed', seed)
     for h in obl.hyps:
+        if ground_only and has_quantifier(h):
+            continue        # fewer hypotheses: still sound for `unsat`
         s.add(h)
     s.add(z3.Not(obl.goal))
     r = s.check()
@@ -78,6 +94,8 @@ def discharge(obls, timeout=20, procs=16, seed=0, on_model=None, use_cvc5=True, 
             elif z3.is_false(z3.simplify(o.goal)) or o.meta.get('kind', '').split(':')[0] in ('noninterference', 'no-global-write', 'nondegenerate', 'frame', 'fresh', 'deterministic', 'no-other-exception'):
                 # goal `False`: discharged only if the path is infeasible, which is found quickly or not at all
                 todo.append((i, min(timeout, 10), 'z3:short'))
+            elif not has_quantifier(o.goal):
+                todo.append((i, 4, 'z3:ground'))      # cheap first rung: quantifier-free goal from the quantifier-free hypotheses
             else:
                 todo.append((i, timeout, 'z3'))
     running = {}
@@ -91,7 +109,12 @@ def discharge(obls, timeout=20, procs=16, seed=0, on_model=None, use_cvc5=True, 
                 if backend == 'cvc5':
                     out = {'verdict': run_cvc5(obls[i], tmo), 'reason': ''}
                 else:
-                    out = _solve(obls[i], int(tmo * 1000), seed, on_model)
+                    if backend == 'z3:ground':
+                        out = _solve(obls[i], int(tmo * 1000), seed, None, ground_only=True)
+                        if out['verdict'] != 'unsat':
+                            out = {'verdict': 'unknown', 'reason': 'ground fragment inconclusive'}
+                    else:
+                        out = _solve(obls[i], int(tmo * 1000), seed, on_model)
             except BaseException as e:
                 out = {'verdict': 'error', 'reason': repr(e)[:300]}
             try:
@@ -149,6 +172,8 @@ def discharge(obls, timeout=20, procs=16, seed=0, on_model=None, use_cvc5=True, 
                     # ladder: z3 -> cvc5 -> z3 (long)
                     if o.expect != 'unsat' or be == 'z3:short':
                         pass
+                    elif be == 'z3:ground':
+                        retries.append((i, timeout, 'z3'))
                     elif be == 'z3' and tmo == timeout and use_cvc5:
                         retries.append((i, timeout, 'cvc5'))
                     elif (be == 'cvc5' or (be == 'z3' and tmo == timeout and not use_cvc5)) and retry_timeout:
